@@ -80,6 +80,8 @@ theorem step_removed_nonvol (c : Cfg) (s : St) (hv : c.volatile = false) (hs : c
   intro d hd
   cases e with
   | nodeDone n => exact Or.inl hd
+  | nodeFailed n => exact Or.inl hd
+  | nodeReset n => exact Or.inl hd
   | removeEmpty =>
     left
     have f := foldRemove_frame (fun a => (c.namesOf a).isEmpty) s.dom s
